@@ -558,8 +558,16 @@ class Body:
                 elif n == "std::ops::FromResidual::from_residual":
                     ty = self.locals[l]["ty"]
                     v = "Err" if ty.startswith("std::result::Result<") else ("None" if ty.startswith("std::option::Option<") else None)
-                elif n in ("std::result::Result::map_err", "std::result::Result::map", "std::option::Option::map") and av is not None:
+                elif n in ("std::result::Result::map_err", "std::result::Result::map", "std::option::Option::map", "std::option::Option::cloned",
+                           "std::option::Option::copied", "std::option::Option::as_ref", "std::option::Option::as_mut", "std::option::Option::as_deref",
+                           "std::option::Option::as_deref_mut", "std::option::Option::inspect", "std::result::Result::as_ref", "std::result::Result::as_mut",
+                           "std::result::Result::cloned", "std::result::Result::copied", "std::result::Result::inspect",
+                           "std::result::Result::inspect_err") and av is not None:
                     v = av
+                elif n in ("std::result::Result::ok",) and av is not None:
+                    v = {"Ok": "Some", "Err": "None"}.get(av)
+                elif n in ("std::result::Result::err",) and av is not None:
+                    v = {"Ok": "None", "Err": "Some"}.get(av)
                 elif n in ("std::option::Option::ok_or_else", "std::option::Option::ok_or") and av is not None:
                     v = {"Some": "Ok", "None": "Err"}.get(av)
                 if v is not None and self._tracked(l) and l not in self._tainted:
